@@ -70,6 +70,29 @@ Theorem c14_delete_exact :
 Proof. exact c14_delete_exact_lemma. Qed.
 Print Assumptions c14_delete_exact.
 
+(* The COMMIT as one more fault position (Rows.txn_f: a failed commit = an error, the database before):
+   whatever the fault, a Delete that returns nil has left no row of the plan and the id reads as an error;
+   a Create / Delete whose commit failed returns an error and has changed nothing. *)
+Theorem c14_delete_nil_implies_gone :
+  forall (enc_req : blob -> option code) (dec_req : tok -> code -> option blob)
+         (enc_att : attempt -> option code) (dec_att : tok -> code -> option attempt)
+         (req_ok : tok -> blob -> bool) (att_ok : tok -> attempt -> bool),
+    (forall t b c, req_ok t b = true -> enc_req b = Some c -> dec_req t c = Some b) ->
+    (forall t a c, att_ok t a = true -> enc_att a = Some c -> dec_att t c = Some a) ->
+    forall (commit_fails : bool) (ops : list op) (id : uid) (d' : db),
+      ops_ok enc_req enc_att req_ok att_ok [] ops ->
+      SqliteModel.delete_f dec_req dec_att commit_fails id (SqliteModel.run enc_req dec_req enc_att dec_att ops []) = (d', true) ->
+      (forall r, In r d' -> row_plan r <> id) /\ SqliteModel.read dec_req dec_att id d' = None.
+Proof. exact c14_delete_nil_implies_gone_lemma. Qed.
+Theorem c14_commit_failure_changes_nothing :
+  forall (enc_req : blob -> option code) (dec_req : tok -> code -> option blob)
+         (enc_att : attempt -> option code) (dec_att : tok -> code -> option attempt) (p : spln) (id : uid) (d : db),
+    SqliteModel.create_f enc_req enc_att true p d = (d, false)
+    /\ SqliteModel.delete_f dec_req dec_att true id d = (d, false).
+Proof. exact c14_commit_failure_changes_nothing_lemma. Qed.
+Print Assumptions c14_delete_nil_implies_gone.
+Print Assumptions c14_commit_failure_changes_nothing.
+
 (* ---- cosmosdb ----
    Create = Exists, planToItems (nothing is written if anything cannot be encoded), ONE transactional
    batch on the plan partition, a re-read, then a second batch on the search partition. On every
